@@ -14,6 +14,7 @@ from . import common, engine, families as fm, impl, observe, restext, solverplay
 
 INV = ['NoMatchingUnlessAllProven', 'FirstBadShown', 'ShowsFirstBadOrTimeout', 'StopsAtFirstBad', 'PlansAreOK', 'LateOrProvenHolds', 'ExportFault']
 PROPS = ['StepRefinesAbs', 'BeginRefinesAbs']
+INV_RUNS = ['NoMatchingUnlessAllProven', 'FirstBadShown', 'ShowsFirstBadOrTimeout', 'StopsAtFirstBad', 'PlansAreOKBoth', 'LateOrProvenHolds', 'SecondRunFresh', 'ExportRuns']
 KINDS = {"Infeasible", "Unbounded", "Undefined", "Not Solved", "TLI"}
 OUTCOME = {'TLI': 'TimeLimitIncumbent'}
 
@@ -102,6 +103,85 @@ def replay_fault(tag, rec):
         os.unlink(path)
 
 
+def _judge(cl, texts, exp, limit, elapsed, total, policy, which, nF0):
+    """C14 clauses on the texts of ONE run of a history.  exp: what the specification presents for that run
+    (decided by the run alone); total: virtual time since construction.  Where 'the run exceeded the limit'
+    and 'the time since construction exceeded the limit' differ, Timeout-versus-result is not judged."""
+    ambiguous = bool(limit) and exp['t'] != 'timeout' and total > limit >= elapsed
+    for g in ('results', 'short', 'long'):
+        t = texts.get(g)
+        if t is None:
+            cl.add('C02', 'getter_no_exception_under_faults', False, '%s() after %s' % (g, which))
+            continue
+        p = restext.parse_results(t)
+        shown = [k for k in restext.MATCHING_KEYS if k in p]
+        tag = '%s, %s, policy %s' % (which, g, policy)
+        if exp['t'] != 'full':
+            cl.add('C14', 'no_matching_fields_when_unproven', not shown,
+                   '%s() shows %s although the run was not proven optimal (%s, text status %s)' % (g, shown, tag, p.get('pulp_status')))
+        if exp['t'] == 'timeout':
+            cl.add('C14', 'timeout_when_limit_and_exceeded_or_unsolved', 'timeout' in p, '%s(): no Timeout line; keys %s (%s)' % (g, p['keys'], tag))
+        elif exp['t'] == 'status':
+            if not limit:
+                cl.add('C14', 'no_timeout_without_limit', 'timeout' not in p, '%s(): Timeout line although this run had no time limit (%s)' % (g, tag))
+            if ambiguous and 'timeout' in p:
+                continue
+            cl.add('C14', 'shows_first_nonoptimal_status', p.get('pulp_status') == exp['status'] and 'timeout' not in p,
+                   '%s(): shows status %r timeout=%s, first non-optimal status of this run is %r (%s)'
+                   % (g, p.get('pulp_status'), 'timeout' in p, exp['status'], tag))
+        else:
+            if ambiguous and 'timeout' in p:
+                continue
+            # a run whose solves were all proven presents its result again, whatever the earlier run was (growth: C14 does not demand it)
+            cl.add('X', 'full_when_all_proven_in_history', 'matching' in p and p.get('pulp_status') == 'Optimal' and 'timeout' not in p,
+                   '%s(): keys %s (%s)' % (g, p['keys'], tag))
+
+
+def replay_runs(tag, rec):
+    """MC_Runs: an earlier run (own limit, one fault or slow solve, or healthy), every getter, then the later run."""
+    impl.ensure_repo()
+    cl = solverplay.Clauses(rec)
+    o, f = rec['o'], rec['first']
+
+    def pl(plan):
+        return ({i + 1: OUTCOME.get(p['o'], p['o']) for i, p in enumerate(plan) if p['o'] != 'ok'},
+                {i + 1: p['d'] / 1e6 for i, p in enumerate(plan) if p['d']})
+    plan1, durs1 = pl(f['plan'])
+    plan2, durs2 = pl(rec['plan'])
+    cl.key = 'run1 limit=%s plan=%s ; run2 limit=%s plan=%s %s' % (
+        f['limit'], ' '.join('%s/%s' % (p['o'], p['d']) for p in f['plan']),
+        rec['limit'], ' '.join('%s/%s' % (p['o'], p['d']) for p in rec['plan']), cl.key)
+    path = impl.write_text(o['text'])
+    info = {'hash': rec.get('_h'), 'nfaults': len(plan1) + len(plan2), 'kind': 'runs:%s>%s' % (f['presented']['t'], rec['presented']['t']),
+            'sample': {'argv': solverplay.argv_of(o, '<file>')[2:], 'run1': {'limit': f['limit'], 'plan': f['plan'], 'spec_presents': f['presented']},
+                       'run2': {'limit': rec['limit'], 'plan': rec['plan'], 'spec_presents': rec['presented']}}}
+    try:
+        argv = solverplay.argv_of(o, path)
+        for policy in ('zeros', 'stale'):
+            clock = observe.VirtualClock()
+            r = solverplay.run_once(argv, seed=11, getters=('results', 'short', 'long'), plan=plan2, durations=durs2, clock=clock,
+                                    values_on_fault=policy, timeLimit=(rec['limit'] / 1e6 if rec['limit'] else None), keep_sets=False,
+                                    prerun={'plan': plan1, 'durations': durs1, 'timeLimit': (f['limit'] / 1e6 if f['limit'] else None)})
+            st, S = r['construct']
+            if st != 'ok':
+                cl.add('C14', 'construct', False, '%s %s' % (st, S))
+                break
+            if 'pre_exc' in r:
+                cl.add('C02', 'solve_no_exception_under_faults', False, 'earlier run: %s (policy %s)' % (r['pre_exc'], policy))
+                continue
+            _judge(cl, r['pre_texts'], f['presented'], f['limit'], f['elapsed'], f['elapsed'], policy, 'earlier run', rec['nF0'])
+            if r['exc'] is not None:
+                cl.add('C02', 'solve_no_exception_under_faults', False, 'later run: %s (policy %s)' % (r['exc'], policy))
+                continue
+            _judge(cl, r['texts'], rec['presented'], rec['limit'], rec['elapsed'], rec['total'], policy, 'later run', rec['nF0'])
+            lim = (rec['limit'] / 1e6) if rec['limit'] else None
+            seen = [e.get('timeLimit') for e in r['events']]
+            cl.add('X', 'backend_receives_time_limit', all(x == lim for x in seen), 'later run solve(timeLimit=%r): back end saw %s' % (lim, seen))
+        return cl.out, info
+    finally:
+        os.unlink(path)
+
+
 def runs_for(tier):
     q = tier == 'quick'
     C = fm.C
@@ -168,6 +248,30 @@ def main(tier, seed):
             res = engine.tlc_replay(rep, pool, 'MC_Faults', replay_fault, consts=r['consts'], invariants=INV, spec='FSpec', properties=PROPS,
                                     label=r['label'], on_result=on_result, export_filter=flt, timeout=3000, **kw)
             rep.notes.append('%s: %s, %d plans exported, %d states' % (r['label'], 'simulate' if r['sim'] else 'exhaustive BFS', res['exports'], res['distinct']))
+    finally:
+        pool.close()
+    # histories of two runs on one object (MC_Runs.tla)
+    q = tier == 'quick'
+    C = fm.C
+    base = dict(NS=2, NP=2, NL=1, MaxLen=2, TieMode='none', AllowEmpty=False, PQ={(0, 1), (1, 1)}, LQ={(0, 2, 2)}, Sided={'one'}, PCs={False})
+    fr = fm.fam(CritLists=[(), (C('maxsize'), C('gre')), (C('gen'), C('mincost'))], **base)
+    fr.update(Limits={0, 4000000}, FaultKinds=KINDS, MaxFaults=1)
+    pool = engine.Pool()
+    try:
+        def flt2(tag, rec):
+            import hashlib
+            h = hashlib.sha1(repr((sorted(rec['o'].items(), key=str), rec['plan'], rec['limit'], rec['first']['plan'], rec['first']['limit'])).encode()).hexdigest()[:16]
+            if h in seen:
+                return False
+            seen.add(h)
+            rec['_h'] = h
+            return True
+        nsim = 12000 if q else 150000
+        res = engine.tlc_replay(rep, pool, 'MC_Runs', replay_runs, consts=fr, invariants=INV_RUNS, spec='RunsSpec', properties=PROPS,
+                                label='two runs on one object: earlier run {healthy | one fault | one slow solve} x limit, later run: all single faults',
+                                on_result=on_result, export_filter=flt2, timeout=3000,
+                                simulate=(max(1, nsim // common.NCPU), 60), seed=seed + 7)
+        rep.notes.append('MC_Runs: simulate, %d two-run histories exported, %d states' % (res['exports'], res['distinct']))
     finally:
         pool.close()
     tlaps_stage(rep)
